@@ -187,7 +187,7 @@ def rowAction (ctx : Ctx) (r : Row) (size : Nat) (ops : List Operand) : Result :
   let bw : Bool := size = 8
   let o0 := ops.getD 0 .none
   let o1 := ops.getD 1 .none
-  if r.type = OP_NONE then .ok [r.opcode]
+  if r.type = OP_NONE then (if ops.length ≠ 0 then .err else .ok [r.opcode])
   else if r.type = OP_ONE_OPERAND ∨ r.type = OP_ONE_OPERAND_W ∨ r.type = OP_ONE_OPERAND_X then
     if ops.length ≠ 1 then .err
     else if r.type = OP_ONE_OPERAND_W ∧ size ≠ 0 ∧ size ≠ 16 then .err
